@@ -109,7 +109,11 @@ def judge_two_rounds(stream: list[dict], batch_size: int, time_buffer: int, cut:
     extremes of the ingested data), clean again with the same buffer.  The second cleaning
     must use the window of everything this holder has ingested."""
     info: dict = {}
-    part1, part2 = stream[:cut], stream[cut:]
+    # the second export overlaps the first: the last spans of part 1 are delivered again
+    # (spans removed by the first cleaning come back, spans still stored are duplicates)
+    overlap = min(cut, (cut * 7 + len(stream)) % 6)
+    part1, part2 = stream[:cut], stream[cut - overlap:]
+    info["overlap"] = overlap
     if not part1 or not part2:
         return "skip:empty part", None, info
     win1 = store.window_of(part1, time_buffer)
@@ -236,7 +240,8 @@ def judge_pipeline(stream: list[dict], batch_size: int, time_buffer: int, wd: st
 def gen_case(rng: random.Random) -> tuple[list[dict], int, int, dict]:
     names = rng.sample(["alpha", "beta", "ga mma"], rng.randint(1, 3))
     minutes = rng.choice([3, 10, 30, 60])
-    st = store.gen_store(rng, rng.randint(1, 14), names, ["A", "B", "C"], 7, True, minutes)
+    st = store.gen_store(rng, rng.randint(1, 14), names, ["A", "B", "C"], 7, True, minutes,
+                         empty_parent=True)
     # traces touching the window edges exactly
     tb = rng.choice([0, 0, 1, 1, 2, 5, 12, 40])
     if rng.random() < 0.5 and st["traces"]:
@@ -307,6 +312,8 @@ def run_chunk(case: dict) -> dict:
             bump("two_rounds:" + (v3 if v3.startswith("skip") else v3.split(":")[0]))
             if info3.get("window_moved"):
                 bump("two_rounds_window_moved_between_rounds")
+            if info3.get("overlap"):
+                bump("two_rounds_with_re_delivered_spans")
             if v3.startswith("violated") and len(fails) < 4:
                 fails.append({"symptom": v3[9:], "detail": d3, "stream": stream, "batch_size": b,
                               "time_buffer": tb, "meta": dict(meta, two_rounds=True, cut=cut)})
@@ -329,7 +336,9 @@ def main(tier: str, seed: int) -> int:
              "every fourth store additionally goes through the real otel_to_pv pipeline (JSON "
              "files -> database file -> cleaning -> [unique graphs] -> PV stream), every fifth is "
              "ingested and cleaned in two rounds on one long-lived holder; differently named "
-             "child spans may start before their root (clock skew). "
+             "child spans may start before their root (clock skew); 15% of the traces spell "
+             "'no parent' as an empty string; the second round re-delivers the last spans of "
+             "the first. "
              "distinct non-trivial = distinct stores where at least one trace was removed and "
              "at least one survived")
     chk.assumptions = [
